@@ -20,4 +20,21 @@ package maven
 
 //@ func (*Version).Compare
 //@   requires wfElems(v.elements) && wfElems(other.elements)
-//@   comparator v ~ other                                 [C01]
+//@   comparator v ~ other                                 [C01]   // known finding (inherits the compareElements cycle)
+
+// ---- constructors: value xor error (C06); the fact is structural (untagged) because callers rely on it
+
+//@ func (*Ecosystem).NewVersion
+//@   ensures xor: (result0 != nil) == (result1 == nil)
+
+//@ func (*Ecosystem).NewVersionRange
+//@   ensures xor: (result0 != nil) == (result1 == nil)
+
+// ---- ranges: maven has no comparator syntax (brackets only, C05); a bound holds exactly when Compare says so
+
+//@ func satisfiesConstraint
+//@   requires constraint.version != nil && wfElems(version.elements) && wfElems(constraint.version.elements)
+//@   ensures lower-incl: constraint.isLower && constraint.inclusive ==> result == (version.Compare(constraint.version) >= 0)     [C02 C05 C20]
+//@   ensures lower-excl: constraint.isLower && !constraint.inclusive ==> result == (version.Compare(constraint.version) > 0)     [C02 C05 C20]
+//@   ensures upper-incl: !constraint.isLower && constraint.inclusive ==> result == (version.Compare(constraint.version) <= 0)    [C02 C05 C20]
+//@   ensures upper-excl: !constraint.isLower && !constraint.inclusive ==> result == (version.Compare(constraint.version) < 0)    [C02 C05 C20]
